@@ -97,4 +97,6 @@ def run(ctx):
     ns = len(suites)
     rep.floor('R15.1', 'finish Ok paths with exactly one KSF call', n_once, 2 * 8 * ns)
     rep.floor('R15.5', 'Ok paths with all secrets bound', n_bound, 2 * 8 * ns)
+    from rules import profile
+    profile.check(ctx, rep, 'R15.P', ['creg_finish', 'clog_finish'])
     return rep
